@@ -407,6 +407,7 @@ func TestDrive_C01(t *testing.T) {
 				n = 1500
 			}
 			flagScenarios(rng, n, add)
+			cancelAfterEarlierTimeout(rng, n/2, add)
 		})
 }
 
@@ -624,51 +625,55 @@ func TestDrive_C07(t *testing.T) {
 				aroundLimits(rng, reqs)
 				add(inst, reqs, "around-limit")
 			}
-			// a retry policy around the Timeout: an earlier attempt times out, then the caller's context is cancelled (or its
-			// deadline reached) in the middle of a later attempt, whose own limit has not expired
 			m := 30
 			if envTier() == "thorough" {
 				m = 800
 			}
-			for i := 0; i < m; i++ {
-				limit := int64(2+rng.Intn(6))*1024 + 512
-				delay := Pick(rng, []int64{0, 1024, 2048})
-				stack := []PolD{{K: "Retry", MaxRetries: int64(2 + rng.Intn(2)), Delay: delay}}
-				if rng.Chance(30) {
-					stack = append(stack, PolD{K: "Fallback", Handle: []CallD{{K: "Result", R: 7}}, FBKind: "Result", FBR: -9})
-				}
-				stack = append(stack, PolD{K: "Timeout", Limit: limit})
-				coop := OutD{R: -5, Err: &ErrD{K: "Sent", A: 2}}
-				first := FnStepD{Out: OutD{R: 1}, Dur: limit + 1024 + int64(rng.Intn(3))*512}
-				if rng.Bool() {
-					first.Coop = &coop
-				}
-				later := FnStepD{Out: OutD{R: 1}, Dur: limit - 256}
-				if rng.Bool() {
-					later.Coop = &coop
-				}
-				// attempt 2 starts at limit (+ whatever the first attempt still takes when it ignores the cancellation) + delay
-				start2 := limit + delay
-				if first.Coop == nil {
-					start2 = first.Dur + delay
-				}
-				rq := ReqD{Stack: stack, CtxKey: -1, Entry: Pick(rng, execEntries), Script: []FnStepD{first, later},
-					ExtT: start2 + 300 + int64(rng.Intn(int(limit-700))), ExtKind: Pick(rng, []string{"Cancel", "Deadline"})}
-				if strings.HasPrefix(rq.Entry, "Run") {
-					rq.Script[0].Out.R, rq.Script[1].Out.R = 0, 0
-					c0 := coop
-					c0.R = 0
-					if rq.Script[0].Coop != nil {
-						rq.Script[0].Coop = &c0
-					}
-					if rq.Script[1].Coop != nil {
-						rq.Script[1].Coop = &c0
-					}
-				}
-				add(InstD{}, []ReqD{rq}, "cancel-after-earlier-timeout")
-			}
+			cancelAfterEarlierTimeout(rng, m, add)
 			preCancelled(rng, m, true, add)
 		})
+}
+
+// a retry policy around a Timeout: an earlier attempt times out, then the caller's context is cancelled (or its deadline
+// reached) in the middle of a later attempt, whose own limit has not expired
+func cancelAfterEarlierTimeout(rng *Rng, m int, add func(InstD, []ReqD, string)) {
+	for i := 0; i < m; i++ {
+		limit := int64(2+rng.Intn(6))*1024 + 512
+		delay := Pick(rng, []int64{0, 1024, 2048})
+		stack := []PolD{{K: "Retry", MaxRetries: int64(2 + rng.Intn(2)), Delay: delay}}
+		if rng.Chance(30) {
+			stack = append(stack, PolD{K: "Fallback", Handle: []CallD{{K: "Result", R: 7}}, FBKind: "Result", FBR: -9})
+		}
+		stack = append(stack, PolD{K: "Timeout", Limit: limit})
+		coop := OutD{R: -5, Err: &ErrD{K: "Sent", A: 2}}
+		first := FnStepD{Out: OutD{R: 1}, Dur: limit + 1024 + int64(rng.Intn(3))*512}
+		if rng.Bool() {
+			first.Coop = &coop
+		}
+		later := FnStepD{Out: OutD{R: 1}, Dur: limit - 256}
+		if rng.Bool() {
+			later.Coop = &coop
+		}
+		// attempt 2 starts at limit (+ whatever the first attempt still takes when it ignores the cancellation) + delay
+		start2 := limit + delay
+		if first.Coop == nil {
+			start2 = first.Dur + delay
+		}
+		rq := ReqD{Stack: stack, CtxKey: -1, Entry: Pick(rng, execEntries), Script: []FnStepD{first, later},
+			ExtT: start2 + 300 + int64(rng.Intn(int(limit-700))), ExtKind: Pick(rng, []string{"Cancel", "Deadline"})}
+		if strings.HasPrefix(rq.Entry, "Run") {
+			rq.Script[0].Out.R, rq.Script[1].Out.R = 0, 0
+			c0 := coop
+			c0.R = 0
+			if rq.Script[0].Coop != nil {
+				rq.Script[0].Coop = &c0
+			}
+			if rq.Script[1].Coop != nil {
+				rq.Script[1].Coop = &c0
+			}
+		}
+		add(InstD{}, []ReqD{rq}, "cancel-after-earlier-timeout")
+	}
 }
 
 // the caller's context is already done (cancelled, or its deadline in the past) when the execution starts: every policy is
@@ -748,7 +753,7 @@ func TestDrive_C08(t *testing.T) {
 				}
 				rq := ReqD{Stack: stack, CtxKey: -1, Entry: Pick(rng, append(append([]string{"GetAsync", "RunAsync", "GetWithExecutionAsync", "RunWithExecutionAsync"}, execEntries...), plainEntries...)),
 					Script: []FnStepD{{Out: genOutcome(rng), Dur: genDur(rng)}, {Out: OutD{R: 1}, Dur: 1024}},
-					ExtT: 1 + rng.I64n(waitFor-1), ExtKind: Pick(rng, []string{"Cancel", "Deadline"})}
+					ExtT:   1 + rng.I64n(waitFor-1), ExtKind: Pick(rng, []string{"Cancel", "Deadline"})}
 				if strings.HasSuffix(rq.Entry, "Async") && rng.Chance(60) {
 					rq.ExtKind = "AsyncCancel" // ExecutionResult.Cancel() in the middle of the outer policy's wait
 				}
